@@ -81,89 +81,158 @@ func main() {
 			line := fset.Position(from).Line
 			edits = append(edits, edit{off(from), off(to), text, fmt.Sprintf("%s:%d %s: %q -> %q", rel, line, kind, string(src[off(from):off(to)]), text)})
 		}
-		ast.Inspect(f, func(nd ast.Node) bool {
-			switch x := nd.(type) {
-			case *ast.BinaryExpr:
-				for _, r := range swapOp[x.Op] {
-					if x.Op == token.ADD || x.Op == token.SUB {
-						// skip string concatenation
-						if lit, ok := x.X.(*ast.BasicLit); ok && lit.Kind == token.STRING {
-							continue
-						}
-						if lit, ok := x.Y.(*ast.BasicLit); ok && lit.Kind == token.STRING {
-							continue
+		gen2 := os.Getenv("MUTGEN_GEN") == "2"
+		text := func(a, b token.Pos) string { return string(src[off(a):off(b)]) }
+		if gen2 {
+			ast.Inspect(f, func(nd ast.Node) bool {
+				switch x := nd.(type) {
+				case *ast.SliceExpr:
+					if x.Low != nil {
+						add(x.Low.Pos(), x.Low.End(), "("+text(x.Low.Pos(), x.Low.End())+")+1", "slice-low+1")
+					}
+					if x.High != nil {
+						add(x.High.Pos(), x.High.End(), "("+text(x.High.Pos(), x.High.End())+")-1", "slice-high-1")
+					}
+					if x.Low != nil && x.High == nil {
+						add(x.Low.Pos(), x.Low.End(), "("+text(x.Low.Pos(), x.Low.End())+")-1", "slice-low-1")
+					}
+				case *ast.IndexExpr:
+					if _, isLit := x.Index.(*ast.BasicLit); !isLit {
+						if id, ok := x.Index.(*ast.Ident); !ok || (id.Name != "T" && id.Name != "string") {
+							add(x.Index.Pos(), x.Index.End(), "("+text(x.Index.Pos(), x.Index.End())+")+1", "index+1")
 						}
 					}
-					add(x.OpPos, x.OpPos+token.Pos(len(x.Op.String())), r, "op")
+				case *ast.ReturnStmt:
+					for _, r := range x.Results {
+						if id, ok := r.(*ast.Ident); ok && id.Name == "err" {
+							add(id.Pos(), id.End(), "nil", "return-nil-err")
+						}
+					}
+				case *ast.BlockStmt:
+					for _, st := range x.List {
+						if is, ok := st.(*ast.IfStmt); ok && is.Else == nil && is.Init == nil {
+							add(is.Pos(), is.End(), "", "drop-if")
+						}
+						if is, ok := st.(*ast.IfStmt); ok && is.Else != nil {
+							add(is.Body.End(), is.End(), "", "drop-else")
+						}
+						if fs, ok := st.(*ast.ForStmt); ok && fs.Init == nil && fs.Post == nil && fs.Cond != nil {
+							add(fs.Pos(), fs.Pos()+3, "if", "for->if")
+						}
+					}
+				case *ast.CallExpr:
+					if sel, ok := x.Fun.(*ast.SelectorExpr); ok {
+						if pk, ok := sel.X.(*ast.Ident); ok && pk.Name == "strings" {
+							swap := map[string]string{"HasPrefix": "HasSuffix", "HasSuffix": "HasPrefix", "IndexByte": "LastIndexByte", "LastIndexByte": "IndexByte", "Index": "LastIndex", "ToLower": "TrimSpace", "TrimSuffix": "TrimPrefix", "TrimPrefix": "TrimSuffix"}
+							if to, ok := swap[sel.Sel.Name]; ok {
+								add(sel.Sel.Pos(), sel.Sel.End(), to, "strings-func")
+							}
+						}
+						if pk, ok := sel.X.(*ast.Ident); ok && pk.Name == "slices" && sel.Sel.Name == "Concat" && len(x.Args) == 2 {
+							add(x.Args[0].Pos(), x.Args[1].End(), text(x.Args[1].Pos(), x.Args[1].End())+", "+text(x.Args[0].Pos(), x.Args[0].End()), "swap-args")
+						}
+					}
+				case *ast.AssignStmt:
+					if x.Tok == token.ADD_ASSIGN {
+						add(x.TokPos, x.TokPos+2, "-=", "op")
+					}
+					if x.Tok == token.OR_ASSIGN {
+						add(x.TokPos, x.TokPos+2, "&=", "op")
+					}
+				case *ast.RangeStmt:
+					// iterate all but the first / stop one early: only for slices spelled as identifiers or selectors
+					switch x.X.(type) {
+					case *ast.Ident, *ast.SelectorExpr:
+						add(x.X.Pos(), x.X.End(), text(x.X.Pos(), x.X.End())+"[:max(0,len("+text(x.X.Pos(), x.X.End())+")-1)]", "range-short")
+					}
 				}
-			case *ast.UnaryExpr:
-				if x.Op == token.NOT {
-					add(x.OpPos, x.OpPos+1, "", "drop-not")
-				}
-			case *ast.IfStmt:
-				if _, isNot := x.Cond.(*ast.UnaryExpr); !isNot {
-					add(x.Cond.Pos(), x.Cond.End(), "!("+string(src[off(x.Cond.Pos()):off(x.Cond.End())])+")", "negate-if")
-				}
-			case *ast.BasicLit:
-				if x.Kind == token.INT {
-					if v, err := strconv.Atoi(x.Value); err == nil {
-						add(x.Pos(), x.End(), strconv.Itoa(v+1), "int+1")
-						if v > 0 {
-							add(x.Pos(), x.End(), strconv.Itoa(v-1), "int-1")
+				return true
+			})
+		} else {
+			ast.Inspect(f, func(nd ast.Node) bool {
+				switch x := nd.(type) {
+				case *ast.BinaryExpr:
+					for _, r := range swapOp[x.Op] {
+						if x.Op == token.ADD || x.Op == token.SUB {
+							// skip string concatenation
+							if lit, ok := x.X.(*ast.BasicLit); ok && lit.Kind == token.STRING {
+								continue
+							}
+							if lit, ok := x.Y.(*ast.BasicLit); ok && lit.Kind == token.STRING {
+								continue
+							}
+						}
+						add(x.OpPos, x.OpPos+token.Pos(len(x.Op.String())), r, "op")
+					}
+				case *ast.UnaryExpr:
+					if x.Op == token.NOT {
+						add(x.OpPos, x.OpPos+1, "", "drop-not")
+					}
+				case *ast.IfStmt:
+					if _, isNot := x.Cond.(*ast.UnaryExpr); !isNot {
+						add(x.Cond.Pos(), x.Cond.End(), "!("+string(src[off(x.Cond.Pos()):off(x.Cond.End())])+")", "negate-if")
+					}
+				case *ast.BasicLit:
+					if x.Kind == token.INT {
+						if v, err := strconv.Atoi(x.Value); err == nil {
+							add(x.Pos(), x.End(), strconv.Itoa(v+1), "int+1")
+							if v > 0 {
+								add(x.Pos(), x.End(), strconv.Itoa(v-1), "int-1")
+							}
+						}
+					}
+				case *ast.Ident:
+					if x.Name == "true" {
+						add(x.Pos(), x.End(), "false", "bool")
+					} else if x.Name == "false" {
+						add(x.Pos(), x.End(), "true", "bool")
+					}
+				case *ast.BranchStmt:
+					if x.Label == nil {
+						if x.Tok == token.BREAK {
+							add(x.Pos(), x.End(), "continue", "branch")
+						} else if x.Tok == token.CONTINUE {
+							add(x.Pos(), x.End(), "break", "branch")
+						}
+					}
+				case *ast.BlockStmt:
+					for _, s := range x.List {
+						switch st := s.(type) {
+						case *ast.ExprStmt:
+							if _, ok := st.X.(*ast.CallExpr); ok {
+								add(st.Pos(), st.End(), "", "drop-call")
+							}
+						case *ast.AssignStmt:
+							if st.Tok != token.DEFINE {
+								add(st.Pos(), st.End(), "", "drop-assign")
+							}
+						case *ast.IncDecStmt:
+							add(st.Pos(), st.End(), "", "drop-incdec")
+						case *ast.DeferStmt:
+							add(st.Pos(), st.End(), "", "drop-defer")
+						}
+					}
+				case *ast.CaseClause:
+					for _, s := range x.Body {
+						switch st := s.(type) {
+						case *ast.ExprStmt:
+							if _, ok := st.X.(*ast.CallExpr); ok {
+								add(st.Pos(), st.End(), "", "drop-call")
+							}
+						case *ast.AssignStmt:
+							if st.Tok != token.DEFINE {
+								add(st.Pos(), st.End(), "", "drop-assign")
+							}
 						}
 					}
 				}
-			case *ast.Ident:
-				if x.Name == "true" {
-					add(x.Pos(), x.End(), "false", "bool")
-				} else if x.Name == "false" {
-					add(x.Pos(), x.End(), "true", "bool")
-				}
-			case *ast.BranchStmt:
-				if x.Label == nil {
-					if x.Tok == token.BREAK {
-						add(x.Pos(), x.End(), "continue", "branch")
-					} else if x.Tok == token.CONTINUE {
-						add(x.Pos(), x.End(), "break", "branch")
-					}
-				}
-			case *ast.BlockStmt:
-				for _, s := range x.List {
-					switch st := s.(type) {
-					case *ast.ExprStmt:
-						if _, ok := st.X.(*ast.CallExpr); ok {
-							add(st.Pos(), st.End(), "", "drop-call")
-						}
-					case *ast.AssignStmt:
-						if st.Tok != token.DEFINE {
-							add(st.Pos(), st.End(), "", "drop-assign")
-						}
-					case *ast.IncDecStmt:
-						add(st.Pos(), st.End(), "", "drop-incdec")
-					case *ast.DeferStmt:
-						add(st.Pos(), st.End(), "", "drop-defer")
-					}
-				}
-			case *ast.CaseClause:
-				for _, s := range x.Body {
-					switch st := s.(type) {
-					case *ast.ExprStmt:
-						if _, ok := st.X.(*ast.CallExpr); ok {
-							add(st.Pos(), st.End(), "", "drop-call")
-						}
-					case *ast.AssignStmt:
-						if st.Tok != token.DEFINE {
-							add(st.Pos(), st.End(), "", "drop-assign")
-						}
-					}
-				}
-			}
-			return true
-		})
+				return true
+			})
+		}
 		for _, e := range edits {
 			n++
 			body := string(src[:e.from]) + e.text + string(src[e.to:])
-			os.WriteFile(filepath.Join(out, fmt.Sprintf("%04d.mut", n)), []byte(rel+"\n"+e.desc+"\n"+body), 0o644)
+			os.WriteFile(filepath.Join(out, fmt.Sprintf("%s%04d.mut", os.Getenv("MUTGEN_PREFIX"), n)), []byte(rel+"\n"+e.desc+"\n"+body), 0o644)
 		}
 	}
 	fmt.Println(n, "mutants")
